@@ -563,15 +563,27 @@ class Engine(MemMixin, OpsMixin, ExecMixin):
         key = (v_lin.key(), c)
         m = st.divmemo.get(key)
         if m is None:
-            # reuse: if v = c*k*q' + r' known for multiples, keep simple
-            q = self.fresh("q")
-            r = self.fresh("r")
+            # content-addressed names: the same dividend/divisor gives the same symbols on every path
+            q = "q[%r/%d]" % (v_lin, c)
+            r = "r[%r/%d]" % (v_lin, c)
             lo, hi = self.bounds(st, v_lin)
-            self.ranges[q] = (0 if (lo is not None and lo >= 0) else None, None if hi is None else hi // c)
+            rq = (0 if (lo is not None and lo >= 0) else None, None if hi is None else hi // c)
+            old = self.ranges.get(q)
+            if old is not None:
+                rq = (rq[0] if old[0] is None else (old[0] if rq[0] is None else min(old[0], rq[0])),
+                      None if (old[1] is None or rq[1] is None) else max(old[1], rq[1]))
+            self.ranges[q] = rq
             self.ranges[r] = (0, c - 1)
             m = (q, r)
             st.divmemo[key] = m
-            st.cons.append(c_eq(v_lin, Lin.sym(q).scale(c) + Lin.sym(r)))
+            d = c_eq(v_lin, Lin.sym(q).scale(c) + Lin.sym(r))
+            st.cons.append(d)
+            st.ghost.setdefault("defs", set())
+            st.ghost["defs"] = st.ghost["defs"] | {d[0].key()}
+            if lo is not None and lo >= 0:
+                st.cons.append(c_le(Lin.const(0), Lin.sym(q)))
+            if hi is not None:
+                st.cons.append(c_le(Lin.sym(q), Lin.const(hi // c)))
         return Lin.sym(m[0]), Lin.sym(m[1])
 
     # ------------------------------------------------------------ region marks (C11/C12 segmentation; refined later)
